@@ -1,8 +1,10 @@
 #!/bin/bash
+# One thorough pass over all checks (or those named in IDS="C02 C09 ..."), e.g. as a background run:
+#   vp run -- env SEED=59 IDS="C07 C09" tools/thorough_pass.sh
 source ./env.sh
 ./check --build-all >/dev/null 2>&1
-for i in 01 02 03 04 05 06 07 08 09 10 11 12 13 14 15 16 17 18 19 20; do
-  ./check C$i --tier thorough --seed ${SEED:-41} > out_C$i.txt 2>&1; rc=$?
-  grep -E "^C[0-9]+ tier|VIOLATION|KNOWN-FINDING|INFRA" out_C$i.txt | cut -c1-300
-  echo "C$i rc=$rc"
+for id in ${IDS:-C01 C02 C03 C04 C05 C06 C07 C08 C09 C10 C11 C12 C13 C14 C15 C16 C17 C18 C19 C20}; do
+  ./check $id --tier thorough --seed ${SEED:-41} > out_$id.txt 2>&1; rc=$?
+  grep -E "^C[0-9]+ tier|VIOLATION|KNOWN-FINDING|INFRA" out_$id.txt | cut -c1-300
+  echo "$id rc=$rc"
 done
